@@ -43,6 +43,10 @@ string script (string key) { return scripts[key]; }
 void enter () { nest++; }
 void leave () { nest--; }
 int depth () { return nest; }
+object driven;      // the object whose scheduled op the coming backend tick runs
+// after the tick: an object that destructed itself could not print its snapshot
+int driven_set;
+void tick_done () { if (driven_set && !driven) snap (); driven = 0; driven_set = 0; }
 void act (string oid, string op) {
   object o;
   mixed e;
@@ -50,6 +54,9 @@ void act (string oid, string op) {
   nest = 0;
   actors = ({ });
   if (!o) { VL ("do " + oid + " " + op); VL ("r nobj"); snap (); return; }
+  // driver-started contexts: the op is only scheduled here; the harness then lets one backend tick run it
+  if (op[0..5] == "later,") { driven = o; driven_set = 1; o->sched_co (op[6..]); return; }
+  if (op[0..2] == "hb,") { driven = o; driven_set = 1; o->sched_hb (op[3..]); return; }
   e = catch (o->run_op (op));
   if (e) { VL ("r uncaught"); snap (); }
   else if (!o) snap ();
